@@ -112,6 +112,10 @@ func (s *scStart) Configure(w *World) {
 		c.DcpMode = "infinite"
 	}
 	if s.prop == "C08" {
+		if t.Draw(3, nil) == 0 {
+			c.ScopeName, c.CollectionNames = "s1", []string{"c1"} // a filtered stream: snapshot tails are closed by seqno-advanced
+			c.Extra["c08filter"] = "1"
+		}
 		c.DcpMode = Pick(t, []string{"infinite", "finite"}, []int{4, 1})
 		c.ReadOnly = false
 		if backend == "custom" {
@@ -119,6 +123,9 @@ func (s *scStart) Configure(w *World) {
 		}
 	}
 	w.buildCluster()
+	w.cl.collections["s1.c1"] = 8
+	w.cl.collections["s1.c2"] = 9
+	c.Extra["coll:8"], c.Extra["coll:9"] = "c1", "c2"
 	if c.Metadata == "file" {
 		w.disk = newDisk(w)
 	}
@@ -132,6 +139,12 @@ func (s *scStart) Configure(w *World) {
 			uuid = 7
 		}
 		v.failover = []FEntry{{UUID: uuid, Seq: 0}}
+		if s.prop == "C02" && t.Draw(2, nil) == 1 {
+			// a history with earlier branches (newest first); the stored checkpoint, if any, is on the newest
+			for n := 1 + t.Draw(2, nil); n > 0; n-- {
+				v.failover = append(v.failover, FEntry{UUID: uuid ^ uint64(0x5a5a+n), Seq: 0})
+			}
+		}
 		for i := range v.copies {
 			v.copies[i].UUID = uuid
 		}
@@ -173,6 +186,8 @@ func (s *scStart) Configure(w *World) {
 				}
 				if kind == "sys:collcreate" {
 					it.Coll, it.ScopeID, it.Manifest, it.Key = 9, 8, q, []byte("c9")
+				} else if c.Extra["c08filter"] == "1" {
+					it.Coll = uint32(8 + t.Draw(2, nil))
 				}
 				v.items = append(v.items, it)
 			}
@@ -257,7 +272,13 @@ func (s *scStart) Configure(w *World) {
 		switch s.fault {
 		case "ckpt-above-high":
 			v := b.vbs[s.faultVb]
-			w.seedCheckpoint(s.faultVb, journal.Off{UUID: v.failover[0].UUID, Seq: v.high + 100 + uint64(t.Draw(3, nil)), Start: v.high + 100, End: v.high + 105}) // beyond anything the workload can add
+			seq := v.high + 100 + uint64(t.Draw(3, nil)) // beyond anything the workload can add
+			start := seq
+			if t.Draw(2, nil) == 1 {
+				start = uint64(t.Draw(int(v.high)+1, nil)) // checkpoint taken mid-snapshot: the snapshot began at or below the high seqno
+				w.probe("ckpt-above-high:mid-snapshot")
+			}
+			w.seedCheckpoint(s.faultVb, journal.Off{UUID: v.failover[0].UUID, Seq: seq, Start: start, End: seq + 5})
 			w.jl(&journal.Ev{K: journal.KExpect, Vb: s.faultVb, S: "checkpoint seqNo bigger then vBucket latest seqNo"})
 		case "flog-error":
 			c.AutoReset = "latest"
